@@ -457,7 +457,8 @@ printf("dgssvx: Fact=%4d, Trans=%4d, equed=%c\n",
 		      B->Mtype != SLU_GE )
 		*info = -13;
             }
-	    if ( X->ncol < 0 ) *info = -14;
+	    if ( *info != 0 ) ; /* B (or lwork) already rejected: report the first offending argument */
+	    else if ( X->ncol < 0 ) *info = -14;
             else if ( X->ncol > 0 ) { /* no checking if X->ncol=0 */
                  if ( Xstore->lda < SUPERLU_MAX(0, A->nrow) ||
 		      (B->ncol != 0 && B->ncol != X->ncol) ||
